@@ -1,13 +1,10 @@
 (* Entry points of the extracted model: [run cmd arg]. *)
 From Coq Require Import NArith List Bool.
 From PV Require Import Base.Sx Model.Forest Model.Table Model.LRDriver Model.Scan Model.Parser
-<<<<<<< HEAD
   Validators.TableStruct Validators.ForestSound Validators.TableComplete Extract.Codec.
-  Validators.TableStruct Extract.Codec Extract.RunC19.
-  Validators.TableStruct Extract.Codec Extract.RunC12.
-=======
-  Validators.TableStruct Extract.Codec Extract.RunC09.
->>>>>>> build-C09
+From PV Require Import Extract.RunC19.
+From PV Require Import Extract.RunC12.
+From PV Require Import Extract.RunC09.
 Import ListNotations.
 Local Open Scope N_scope.
 
@@ -69,7 +66,6 @@ Definition run (cmd : N) (arg : sx) : sx :=
   | 3 => run_table_struct arg
   | 4 => run_lr_parse arg
   | 5 => run_tree_ok arg
-<<<<<<< HEAD
   | 6 => run_forest_ok arg
   | 7 => run_forest_trees arg
   | 8 => run_table_complete arg
@@ -79,8 +75,6 @@ Definition run (cmd : N) (arg : sx) : sx :=
   | 193 => run_c19_sort arg
   | 120 => run_c12_120 arg
   | 121 => run_c12_121 arg
-=======
   | 90 | 91 | 92 | 93 | 94 | 95 => run_c09 cmd arg
->>>>>>> build-C09
   | _ => L [A 999999]
   end.
